@@ -174,15 +174,32 @@ theorem leaf3 (lo : Nat) (k : PK) (hk : ∀ b e, k.nestedIn b e = true) (t1 t2 t
   have hle : b1 ≤ e3 := by omega
   exact ⟨by simp [PE.nested, hk, hle], hs.1, hle, hs.2.2.2.2.2.2⟩
 
+/-- the result of the pipeline loop contains the tree it started from -/
+theorem pipeLoop_noPoint : ∀ (F : Nat) (left : PE) (ts : List PTok) (pe : PE) (rest : List PTok),
+    pipeLoop F left ts = .ok (pe, rest) → pe.noPoint = true → left.noPoint = true := by
+  intro F
+  induction F with
+  | zero => intro left ts pe rest h; simp [pipeLoop] at h
+  | succ F ih =>
+    intro left ts pe rest h hnp
+    simp only [pipeLoop] at h
+    split at h
+    · obtain ⟨⟨right, r⟩, h1, h2⟩ := PR.bind_ok _ _ _ h
+      have := ih _ _ _ _ h2 hnp
+      simp only [mkPipe, PE.noPoint, PK.noPoint, PEL.noPoint, Bool.and_true, Bool.and_eq_true] at this
+      exact this.2
+    · simp only [PR.ok.injEq, Prod.mk.injEq] at h; obtain ⟨rfl, rfl⟩ := h
+      exact hnp
+
 theorem spans : ∀ (F : Nat),
-    (∀ lo ts pe rest, Sorted lo ts → parsePipeline F ts = .ok (pe, rest) → SpanInv lo pe rest) ∧
+    (∀ lo ts pe rest, Sorted lo ts → parsePipeline F ts = .ok (pe, rest) → pe.noPoint = true → SpanInv lo pe rest) ∧
     (∀ lo left ts pe rest, PE.nested left = true → lo ≤ left.b → left.b ≤ left.e → Sorted left.e ts →
-        pipeLoop F left ts = .ok (pe, rest) → SpanInv lo pe rest) ∧
-    (∀ lo ts pe rest, Sorted lo ts → parseCall F ts = .ok (pe, rest) → SpanInv lo pe rest) ∧
-    (∀ lo ts pels rest, Sorted lo ts → parseArgs F ts = .ok (pels, rest) →
+        pipeLoop F left ts = .ok (pe, rest) → pe.noPoint = true → SpanInv lo pe rest) ∧
+    (∀ lo ts pe rest, Sorted lo ts → parseCall F ts = .ok (pe, rest) → pe.noPoint = true → SpanInv lo pe rest) ∧
+    (∀ lo ts pels rest, Sorted lo ts → parseArgs F ts = .ok (pels, rest) → pels.noPoint = true →
         Chain lo pels ∧ Sorted (pels.lastEnd lo) rest) ∧
-    (∀ lo ts pe rest, Sorted lo ts → parseArg F ts = .ok (pe, rest) → SpanInv lo pe rest) ∧
-    (∀ lo ts pe rest, Sorted lo ts → parseExpr F ts = .ok (pe, rest) → SpanInv lo pe rest) := by
+    (∀ lo ts pe rest, Sorted lo ts → parseArg F ts = .ok (pe, rest) → pe.noPoint = true → SpanInv lo pe rest) ∧
+    (∀ lo ts pe rest, Sorted lo ts → parseExpr F ts = .ok (pe, rest) → pe.noPoint = true → SpanInv lo pe rest) := by
   intro F
   induction F with
   | zero =>
@@ -192,25 +209,29 @@ theorem spans : ∀ (F : Nat),
     -- a call headed by a symbol
     have callSym : ∀ lo s b e ts pe rest, Sorted lo (⟨.sym s, b, e⟩ :: ts) →
         ((parseArgs F ts).bind fun (args, r) => PR.ok (mkCall s b e args, r)) = .ok (pe, rest) →
-        SpanInv lo pe rest := by
-      intro lo s b e ts pe rest hs h
+        pe.noPoint = true → SpanInv lo pe rest := by
+      intro lo s b e ts pe rest hs h hnp
       obtain ⟨⟨args, r⟩, h1, h2⟩ := PR.bind_ok _ _ _ h
       simp only [PR.ok.injEq, Prod.mk.injEq] at h2
       obtain ⟨rfl, rfl⟩ := h2
       simp only [Sorted] at hs
-      obtain ⟨hc, hr⟩ := ihAs e ts args r hs.2.2 h1
+      have hnpa : args.noPoint = true := by
+        simpa only [mkCall, PE.noPoint, PK.noPoint, Bool.true_and] using hnp
+      obtain ⟨hc, hr⟩ := ihAs e ts args r hs.2.2 h1 hnpa
       have hle := chain_lastEnd args e hc
       have hn := chain_nestedIn args e b (args.lastEnd e) hc hs.2.1 (Nat.le_refl _)
       refine ⟨?_, hs.1, by simp only [mkCall, PE.b_mk, PE.e_mk]; omega, hr⟩
       have h1' : b ≤ args.lastEnd e := by omega
       simp [mkCall, PE.nested, PK.nestedIn, hn, h1', hle, hs.2.1]
     -- `expression`
-    have hE : ∀ lo ts pe rest, Sorted lo ts → parseExpr (F + 1) ts = .ok (pe, rest) → SpanInv lo pe rest := by
-      intro lo ts pe rest hs h
+    have hE : ∀ lo ts pe rest, Sorted lo ts → parseExpr (F + 1) ts = .ok (pe, rest) → pe.noPoint = true →
+        SpanInv lo pe rest := by
+      intro lo ts pe rest hs h hnp
       simp only [parseExpr] at h
       split at h
-      · simp only [PR.ok.injEq, Prod.mk.injEq] at h; obtain ⟨rfl, rfl⟩ := h
-        exact leaf3 lo _ (fun _ _ => rfl) _ _ _ _ _ _ _ _ _ _ hs
+      · -- a lat,lng literal: excluded
+        simp only [PR.ok.injEq, Prod.mk.injEq] at h; obtain ⟨rfl, rfl⟩ := h
+        simp [PE.noPoint, PK.noPoint] at hnp
       · simp at h
       · simp only [PR.ok.injEq, Prod.mk.injEq] at h; obtain ⟨rfl, rfl⟩ := h
         exact leaf1 lo _ (fun _ _ => rfl) _ _ _ _ hs
@@ -234,7 +255,7 @@ theorem spans : ∀ (F : Nat),
         split at h2
         · simp only [PR.ok.injEq, Prod.mk.injEq] at h2; obtain ⟨rfl, rfl⟩ := h2
           simp only [Sorted] at hs
-          obtain ⟨hn, hb, hbe, hr⟩ := ihP _ _ _ _ hs.2.2 h1
+          obtain ⟨hn, hb, hbe, hr⟩ := ihP _ _ _ _ hs.2.2 h1 hnp
           simp only [Sorted] at hr
           exact ⟨hn, by omega, hbe, hr.2.2.mono (by omega)⟩
         · simp at h2
@@ -244,7 +265,8 @@ theorem spans : ∀ (F : Nat),
         split at h2
         · simp only [PR.ok.injEq, Prod.mk.injEq] at h2; obtain ⟨rfl, rfl⟩ := h2
           simp only [Sorted] at hs
-          obtain ⟨hn, hb, hbe, hr⟩ := ihP _ _ _ _ hs.2.2.2.2 h1
+          have hnpb : body.noPoint = true := by simpa only [PE.noPoint, PK.noPoint] using hnp
+          obtain ⟨hn, hb, hbe, hr⟩ := ihP _ _ _ _ hs.2.2.2.2 h1 hnpb
           simp only [Sorted] at hr
           refine ⟨?_, by simp only [PE.b_mk]; omega, by simp only [PE.b_mk, PE.e_mk]; exact hbe, ?_⟩
           · simp [PE.nested, PK.nestedIn, hn, hbe]
@@ -264,7 +286,8 @@ theorem spans : ∀ (F : Nat),
             obtain ⟨hb1, hsr⟩ := symbols_spans F _ _ _ _ _ hs'.2.2 h1
             simp only at hb1
             simp only [Sorted] at hsr
-            obtain ⟨hn, hb, hbe, hr⟩ := ihP _ _ _ _ hsr.2.2 h3
+            have hnpb : body.noPoint = true := by simpa only [PE.noPoint, PK.noPoint] using hnp
+            obtain ⟨hn, hb, hbe, hr⟩ := ihP _ _ _ _ hsr.2.2 h3 hnpb
             simp only [Sorted] at hr
             have hx1 : b ≤ body.e := by omega
             have hx2 : b ≤ body.b := by omega
@@ -288,24 +311,26 @@ theorem spans : ∀ (F : Nat),
         · simp at h2
       · simp at h
     -- `arg` and `call`
-    have hA : ∀ lo ts pe rest, Sorted lo ts → parseArg (F + 1) ts = .ok (pe, rest) → SpanInv lo pe rest := by
-      intro lo ts pe rest hs h
+    have hA : ∀ lo ts pe rest, Sorted lo ts → parseArg (F + 1) ts = .ok (pe, rest) → pe.noPoint = true →
+        SpanInv lo pe rest := by
+      intro lo ts pe rest hs h hnp
       simp only [parseArg] at h
       split at h
-      · exact ihE _ _ _ _ hs h
+      · exact ihE _ _ _ _ hs h hnp
       · simp only [PR.ok.injEq, Prod.mk.injEq] at h; obtain ⟨rfl, rfl⟩ := h
         exact leaf1 lo _ (fun _ _ => rfl) _ _ _ _ hs
-      · exact ihE _ _ _ _ hs h
-    have hC : ∀ lo ts pe rest, Sorted lo ts → parseCall (F + 1) ts = .ok (pe, rest) → SpanInv lo pe rest := by
-      intro lo ts pe rest hs h
+      · exact ihE _ _ _ _ hs h hnp
+    have hC : ∀ lo ts pe rest, Sorted lo ts → parseCall (F + 1) ts = .ok (pe, rest) → pe.noPoint = true →
+        SpanInv lo pe rest := by
+      intro lo ts pe rest hs h hnp
       simp only [parseCall] at h
       split at h
-      · exact ihE _ _ _ _ hs h
-      · exact callSym _ _ _ _ _ _ _ hs h
-      · exact ihE _ _ _ _ hs h
-    have hAs : ∀ lo ts pels rest, Sorted lo ts → parseArgs (F + 1) ts = .ok (pels, rest) →
+      · exact ihE _ _ _ _ hs h hnp
+      · exact callSym _ _ _ _ _ _ _ hs h hnp
+      · exact ihE _ _ _ _ hs h hnp
+    have hAs : ∀ lo ts pels rest, Sorted lo ts → parseArgs (F + 1) ts = .ok (pels, rest) → pels.noPoint = true →
         Chain lo pels ∧ Sorted (pels.lastEnd lo) rest := by
-      intro lo ts pels rest hs h
+      intro lo ts pels rest hs h hnp
       simp only [parseArgs] at h
       split at h
       · simp only [PR.ok.injEq, Prod.mk.injEq] at h; obtain ⟨rfl, rfl⟩ := h
@@ -314,8 +339,9 @@ theorem spans : ∀ (F : Nat),
         · obtain ⟨⟨a, r⟩, h1, h2⟩ := PR.bind_ok _ _ _ h
           obtain ⟨⟨as, r'⟩, h3, h4⟩ := PR.bind_ok _ _ _ h2
           simp only [PR.ok.injEq, Prod.mk.injEq] at h4; obtain ⟨rfl, rfl⟩ := h4
-          obtain ⟨hn, hb, hbe, hr⟩ := ihA _ _ _ _ hs h1
-          obtain ⟨hc, hr'⟩ := ihAs _ _ _ _ hr h3
+          simp only [PEL.noPoint, Bool.and_eq_true] at hnp
+          obtain ⟨hn, hb, hbe, hr⟩ := ihA _ _ _ _ hs h1 hnp.1
+          obtain ⟨hc, hr'⟩ := ihAs _ _ _ _ hr h3 hnp.2
           refine ⟨⟨hb, hbe, hn, hc⟩, ?_⟩
           cases as with
           | nil => simpa only [PEL.lastEnd] using hr'
@@ -327,15 +353,19 @@ theorem spans : ∀ (F : Nat),
           exact ⟨trivial, hs⟩
     -- the pipeline loop
     have hL : ∀ lo left ts pe rest, PE.nested left = true → lo ≤ left.b → left.b ≤ left.e → Sorted left.e ts →
-        pipeLoop (F + 1) left ts = .ok (pe, rest) → SpanInv lo pe rest := by
-      intro lo left ts pe rest hn hb hbe hs h
+        pipeLoop (F + 1) left ts = .ok (pe, rest) → pe.noPoint = true → SpanInv lo pe rest := by
+      intro lo left ts pe rest hn hb hbe hs h hnp
       simp only [pipeLoop] at h
       split at h
       · obtain ⟨⟨right, r⟩, h1, h2⟩ := PR.bind_ok _ _ _ h
         simp only [Sorted] at hs
-        obtain ⟨hn2, hb2, hbe2, hr2⟩ := ihC _ _ _ _ hs.2.2 h1
+        have hnpr : right.noPoint = true := by
+          have := pipeLoop_noPoint F _ _ _ _ h2 hnp
+          simp only [mkPipe, PE.noPoint, PK.noPoint, PEL.noPoint, Bool.and_true, Bool.and_eq_true] at this
+          exact this.1
+        obtain ⟨hn2, hb2, hbe2, hr2⟩ := ihC _ _ _ _ hs.2.2 h1 hnpr
         refine ihL lo (mkPipe left right) r pe rest ?_ (by simpa only [mkPipe, PE.b_mk] using hb)
-          (by simp only [mkPipe, PE.b_mk, PE.e_mk]; omega) (by simpa only [mkPipe, PE.e_mk] using hr2) h2
+          (by simp only [mkPipe, PE.b_mk, PE.e_mk]; omega) (by simpa only [mkPipe, PE.e_mk] using hr2) h2 hnp
         have hy1 : left.b ≤ right.e := by omega
         have hy2 : left.b ≤ right.b := by omega
         have hy3 : left.e ≤ right.e := by omega
@@ -343,10 +373,10 @@ theorem spans : ∀ (F : Nat),
       · simp only [PR.ok.injEq, Prod.mk.injEq] at h; obtain ⟨rfl, rfl⟩ := h
         exact ⟨hn, hb, hbe, hs⟩
     refine ⟨?_, hL, hC, hAs, hA, hE⟩
-    intro lo ts pe rest hs h
+    intro lo ts pe rest hs h hnp
     simp only [parsePipeline] at h
     obtain ⟨⟨c, r⟩, h1, h2⟩ := PR.bind_ok _ _ _ h
-    obtain ⟨hn, hb, hbe, hr⟩ := ihC _ _ _ _ hs h1
-    exact ihL lo c r pe rest hn hb hbe hr h2
+    obtain ⟨hn, hb, hbe, hr⟩ := ihC _ _ _ _ hs h1 (pipeLoop_noPoint F _ _ _ _ h2 hnp)
+    exact ihL lo c r pe rest hn hb hbe hr h2 hnp
 
 end B6.Lemmas.ShellSpans
